@@ -100,6 +100,7 @@ class Engine:
         self.hooks_fired = set()
         self.cuts_fired = set()
         self.assumed_contracts = set()
+        self.lemmas_used = set()
 
     # ------------------------------------------------------------------
     # helpers
@@ -359,17 +360,35 @@ class Engine:
         st.env[ch["var"]] = Val.of_num(N(w))
 
     def apply_cut(self, k, cut, st, node):
+        for u in cut.get("use", []):
+            # explicit instances of separately proved scalar lemmas: hypotheses for the clauses below
+            g = self.truth(self.ev_spec(u, st, pre=self.entry_state, polarity=-1))
+            st.pc = z3.And(st.pc, g)
         for cl in cut["clauses"]:
             g = self.eval_clause(cl, st, pre=self.entry_state, polarity=1)
             self.oblige("cut#%d[%s]::%s" % (k, cut["var"], cl.name), st, g, "cut", cl.top, cut["props"], node, cl)
-        nm = ctx().fresh("cut_" + cut["var"])
-        nv = self.build_from_spec(cut["spec"], nm, st)
-        st.env[cut["var"]] = nv
+        if cut["spec"] is not None:
+            nm = ctx().fresh("cut_" + cut["var"])
+            nv = self.build_from_spec(cut["spec"], nm, st)
+            st.env[cut["var"]] = nv
         for cl in cut["clauses"]:
             g = self.eval_clause(cl, st, pre=self.entry_state, polarity=-1)
             st.pc = z3.And(st.pc, g)
 
     def exec_stmt0(self, s, st):
+        c = self.cur_contract
+        if c is not None and c.opaque_stmts and self.inline_depth == 0 and isinstance(s, (ast.Assign, ast.AugAssign)) and self.func.qual == c.qual:
+            txt = " ".join(ast.unparse(s).split())
+            if any(txt.startswith(p) for p in c.opaque_stmts):
+                ctx().note("opaque-stmt", self.where(s), txt[:60])
+                for t in (s.targets if isinstance(s, ast.Assign) else [s.target]):
+                    if isinstance(t, ast.Subscript):
+                        kind, key = self.lvalue(t.value, st)
+                        if kind in ("local", "heap"):
+                            st.env[key] = Val.fresh("opq")
+                    else:
+                        self.assign(t, Val.fresh("opq"), st)
+                return st
         m = getattr(self, "st_" + type(s).__name__, None)
         if m is None:
             ctx().note("unmodelled-stmt", self.where(s), type(s).__name__)
@@ -584,6 +603,12 @@ class Engine:
         def guard(stt):
             return stt.env[idx].get_num().r < n
 
+        def arr_head(stt):
+            # the number of completed iterations is visible to invariants as `loop_index`
+            stt.env["loop_index"] = stt.env[idx]
+            i_ = stt.env[idx].get_num().r
+            return z3.And(i_ >= 0, i_ <= n)
+
         def pre_body(stt):
             i = stt.env[idx].get_num().r
             if a is not None and a.ndim >= 1:
@@ -597,7 +622,7 @@ class Engine:
             self.assign(s.target, item, stt)
             stt.env[idx] = Val.of_num(N(i + 1))
 
-        return self.run_loop(s, st, guard, pre_body, extra_mod=[idx], head_fact=lambda stt: stt.env[idx].get_num().r >= 0, extra_names=_target_names(s.target))
+        return self.run_loop(s, st, guard, pre_body, extra_mod=[idx], head_fact=arr_head, extra_names=_target_names(s.target))
 
     def run_loop(self, s, st, guard, pre_body, extra_mod=(), head_fact=None, extra_names=()):
         from . import frames
